@@ -107,6 +107,7 @@ where
         }
         i += 1;
     }
+    kani::assume(p == 0 || inp[p - 1] != sym);
     let mut bh: [u8; N] = kani::any();
     let mut rle: [u8; C] = kani::any();
     let mut len: u8 = kani::any();
